@@ -129,10 +129,22 @@ func (p *proc) kill() {
 	<-p.done
 }
 
-func (p *proc) quit() error {
-	_, err := p.call(req{Op: "quit"})
-	p.died(30 * time.Second)
-	return err
+// quit asks for a clean shutdown (RemoveUser + Close). hung=true: the server did not finish within 20 s and was killed.
+func (p *proc) quit() (hung bool, err error) {
+	if err := p.in.Encode(req{Op: "quit"}); err != nil {
+		p.kill()
+		return false, err
+	}
+	r, err := p.read(20 * time.Second)
+	if err != nil {
+		p.kill()
+		return true, nil
+	}
+	p.died(10 * time.Second)
+	if r.Err != "" {
+		return false, fmt.Errorf("%s", r.Err)
+	}
+	return false, nil
 }
 
 func (p *proc) login() (*imapc.Client, error) {
